@@ -430,7 +430,7 @@ def gym_residual(gcls):
                 continue
             total = None
             for k, v in info[1]:
-                if k[0] == "const" and isinstance(k[1], str) and k[1].startswith("reward_"):
+                if k[0] == "const" and isinstance(k[1], str):
                     total = v if total is None else ("bin", "Add", total, v)
             if total is None:
                 continue
@@ -475,7 +475,7 @@ def check_info_siblings(s):
             if not (isinstance(d, tuple) and d[0] == "dict"):
                 continue
             items = {k[1]: v for k, v in d[1] if k[0] == "const"}
-            rkeys = {k for k in items if k.startswith("reward_")}
+            rkeys = {k for k in items if k.startswith("reward_") or k in gkeys}
             if not rkeys:
                 continue
             conds = dict(ip.conds)
@@ -503,5 +503,414 @@ def check(s):
     check_mujoco_defaults(s)
     check_typestate(s)
     check_info_siblings(s)
-    for r_, n_ in (("C17.1", 30), ("C17.2", 4), ("C17.3", 4), ("C17.4", 9), ("C17.5", 8), ("C17.7", 88), ("C17.9", 11), ("C17.13", 10)):
+    check_stage_b(s)
+    for r_, n_ in (("C17.1", 30), ("C17.2", 4), ("C17.3", 4), ("C17.4", 9), ("C17.5", 8), ("C17.7", 88), ("C17.8", 18), ("C17.9", 11), ("C17.10", 100), ("C17.11", 30),
+                   ("C17.12", 5), ("C17.13", 20)):
         s.floor(r_, n_)
+
+
+# ----------------------------------------------------------------------------- stage B: term-wise cross-source comparison
+EMPTY = ("const", "<empty>")
+ONE_D_FIELDS = {"qpos", "qvel", "ctrl", "qfrc_actuator", "qfrc_constraint", "qacc", "act"}
+
+
+def common(n, data=("param", "$data")):
+    """Reference-side vocabulary -> common vocabulary (value-preserving rewrites, listed in DESIGN.md C17)."""
+    n = gymref.to_common(n, data)
+    self_ = ("param", "self")
+
+    def f(x):
+        if not x:
+            return x
+        k = x[0]
+        if k == "attr" and x[2] == "flat":
+            return x[1]
+        # reshape(-1) / flatten() / ravel() of a per-dof (1-D) field is the identity
+        if k == "call" and isinstance(x[1], tuple) and x[1][0] == "attr" and x[1][2] in ("reshape", "flatten", "ravel") and x[2] in ((), (("const", -1),)) and not x[3] \
+                and isinstance(x[1][1], tuple) and x[1][1][0] == "attr" and x[1][1][2] in ONE_D_FIELDS:
+            return x[1][1]
+        # after the step the controls stored in the data are the action that was applied (transition writes ctrl=action)
+        if k == "attr" and x[2] == "ctrl" and x[1] == data:
+            return ("param", "action")
+        if k == "call" and isinstance(x[1], tuple) and x[1][0] == "attr" and x[1][2] == "copy" and not x[2] and not x[3]:
+            return x[1][1]
+        # state_vector()[i] / [k:]  (assumption: the index lies within qpos)
+        if k in ("item", "sub") and isinstance(x[1], tuple) and x[1][0] == "call" and x[1][1] in (("global", "numpy.concatenate"), ("global", "jax.numpy.concatenate")) and x[1][2] \
+                and isinstance(x[1][2][0], tuple) and x[1][2][0][0] in ("list", "tuple") and len(x[1][2][0][1]) == 2:
+            a, b_ = x[1][2][0][1]
+            if k == "item" and isinstance(x[2], int):
+                return ("item", a, x[2])
+            if k == "sub" and isinstance(x[2], tuple) and x[2][0] == "slice" and x[2][2] == NONE and x[2][3] == NONE and x[2][1][0] == "const":
+                return ("call", x[1][1], (("list", (("sub", a, x[2]), b_)),), x[1][3])
+        # X[a:b][i] -> X[a+i]
+        if k == "item" and isinstance(x[1], tuple) and x[1][0] == "sub" and isinstance(x[1][2], tuple) and x[1][2][0] == "slice" and x[1][2][1][0] == "const" \
+                and isinstance(x[1][2][1][1], int) and isinstance(x[2], int) and x[1][2][3] == NONE:
+            return ("item", x[1][1], x[1][2][1][1] + x[2])
+        # empty parts
+        if k == "call" and x[1] in (("global", "numpy.array"), ("global", "jax.numpy.array")) and x[2] == (("list", ()),):
+            return EMPTY
+        if k == "call" and x[1] in (("global", "jax.numpy.zeros"), ("global", "numpy.zeros")) and x[2] and x[2][0] == ("tuple", (("const", 0),)):
+            return EMPTY
+        # Python all((a, b, c)) -> a and b and c
+        if k == "call" and x[1] == ("global", "all") and len(x[2]) == 1 and isinstance(x[2][0], tuple) and x[2][0][0] in ("tuple", "list"):
+            return ("boolop", "And", x[2][0][1])
+        # body positions
+        if k == "call" and x[1] == ("attr", self_, "get_body_com") and len(x[2]) == 1 and x[2][0][0] == "const":
+            return ("bodypos", "xpos", x[2][0][1], data)
+        if k in ("sub", "item") and isinstance(x[1], tuple) and x[1][0] == "attr" and x[1][2] in ("xpos", "xipos") and isinstance(x[2], tuple) and x[2][0] == "attr" \
+                and x[2][1] == self_ and x[2][2].endswith("_body_id"):
+            return ("bodypos", x[1][2], x[2][2][: -len("_body_id")], x[1][1])
+        # data.body(id).xpos -> data.xpos[id]
+        if k == "attr" and x[2] in ("xpos", "xipos") and isinstance(x[1], tuple) and x[1][0] == "call" and isinstance(x[1][1], tuple) and x[1][1][0] == "attr" and x[1][1][2] == "body" \
+                and len(x[1][2]) == 1:
+            return ("sub", ("attr", x[1][1][1], x[2]), x[1][2][0])
+        if k == "attr" and x[1] == self_ and x[2] == "main_body":
+            return ("attr", self_, "main_body_id")
+        if k == "call" and x[1] == ("global", "int") and len(x[2]) == 1:
+            return x[2][0]
+        return x
+
+    return mapnodes(n, f)
+
+
+def gym_inline(kind, name, c):
+    return kind in ("method", "property", "function") and not name.endswith(("__init__", ".render", ".step", ".dt", ".get_body_com", ".do_simulation", ".set_state"))
+
+
+def gym_builder(merge_ifs=False):
+    from ..vgraph import Builder
+    return Builder(gymref.load(), inline=gym_inline, merge_ifs=merge_ifs, max_depth=4)
+
+
+def flag_name(t):
+    """Name of the configuration flag a static test reads: self.x / self._x / `self._x is True`."""
+    if isinstance(t, tuple) and t[0] == "cmp" and t[1] in ("Is", "Eq") and t[3] == TRUE:
+        t = t[2]
+    if isinstance(t, tuple) and t[0] == "attr" and t[1] == ("param", "self"):
+        return t[2].lstrip("_")
+    return None
+
+
+def lerax_env_builder(s):
+    return s.builder(inline=lambda kind, name, c: kind in ("method", "property") and not name.endswith(("__init__", ".transition", ".initial")), max_depth=3)
+
+
+def check_reward_terms(s):
+    """C17.11: every reward term reported by the reference equals lerax's term of the same key (velocity symbol abstracted), and the
+    velocity is (position functional after − before)/dt with the reference's position functional."""
+    P = s.prog
+    self_ = ("param", "self")
+    D0, D1 = ("param", "$data0"), ("param", "$data")
+    ms = P.cls("MujocoEnvState").qualname
+    st0 = ("record", ms, (("sim_state", D0), ("t", ("param", "$t0"))))
+    st1 = ("record", ms, (("sim_state", D1), ("t", ("param", "$t1"))))
+    for cls, gcls in MUJOCO.items():
+        try:
+            gci, gdc, gfn = gymref.method(gcls, "_get_rew")
+        except AnalysisError:
+            continue
+        gb = gym_builder()
+        gpaths = [p for p in gb.paths(gfn, Ctx(gdc.module, gdc, gfn, gci), max_paths=64) if p.raised is None]
+        if len(gpaths) != 1:
+            raise AnalysisError(f"reference {gcls}._get_rew: expected a single path, found {len(gpaths)}")
+        ginfo = gpaths[0].ret[1][1]
+        gterms = {k[1]: v for k, v in ginfo[1] if k[0] == "const"}
+        gparams = [a.arg for a in gfn.args.args][1:]
+        ci = P.cls(cls)
+        lb = lerax_env_builder(s)
+        nz = Normalizer(lb)
+        r = P.resolve_method(ci, "transition_info")
+        loc = P.loc(r[0].module, r[1])
+        lps = live(lb.paths(r[1], Ctx(r[0].module, r[0], r[1], ci), {"state": st0, "next_state": st1}, max_paths=64))
+        if len(lps) != 1 or lps[0].ret[0] != "dict":
+            raise AnalysisError(f"{cls}.transition_info: expected one path returning a dict literal")
+        lterms = {k[1]: v for k, v in lps[0].ret[1] if k[0] == "const"}
+        # bind the reference's parameters
+        gsub = {}
+        lsub = {}
+        if "x_velocity" in gparams:
+            if "x_velocity" not in lterms:
+                s.ob("C17.11", f"{cls}.transition_info", False, "transition_info reports x_velocity", loc, key="no-x-velocity")
+                continue
+            lsub[lterms["x_velocity"]] = ("param", "x_velocity")
+        if "pos_after" in gparams:
+            gsub[("param", "pos_after")] = ("item", ("attr", D1, "qpos"), 2)
+        if gcls == "InvertedDoublePendulumEnv":
+            site = ("item", ("attr", D1, "site_xpos"), 0)
+            gsub[("param", "x")] = ("item", site, 0)
+            gsub[("param", "y")] = ("item", site, 2)
+            gsub[("param", "terminated")] = ("cmp", "LtE", ("item", site, 2), ("const", 1))
+        nzb = Normalizer(lb, total_order=(gcls == "InvertedDoublePendulumEnv"))
+        keys_g = {k for k in gterms if k.startswith("reward_") or k.endswith("_penalty")}
+        keys_l = {k for k in lterms if k.startswith("reward_") or k.endswith("_penalty") or k in ("alive_bonus",)}
+        s.ob("C17.13", f"{cls}.transition_info[keys]", keys_g <= set(lterms), "every reward component key of the reference's reward_info is reported", loc, key="info-keys",
+             detail=f"missing {sorted(keys_g - set(lterms))}; lerax has {sorted(keys_l)}", necessary_for="the same reward components as Gymnasium v5")
+        gass = gymref.init_assigns(gcls)
+        gdef = gymref.init_defaults(gcls)
+        _, ldef = lerax_defaults(P, cls)
+        nzc = Normalizer(None)
+        for k in sorted(keys_g & set(lterms)):
+            g = replace_nodes(common(gterms[k], D1), gsub)
+            g = common(g, D1)
+            l_ = common(replace_nodes(lterms[k], lsub), D1)
+            # a weight the reference accepts and stores but never applies (documented as a factor with default 1) is neutral at its default
+            gattrs = {x[2] for x in walk(g) if isinstance(x, tuple) and x and x[0] == "attr" and x[1] == self_}
+            for x in list(walk(l_)):
+                if isinstance(x, tuple) and x and x[0] == "attr" and x[1] == self_ and x[2] not in gattrs and x[2].endswith("_weight") and ("_" + x[2]) in gass \
+                        and x[2] in gdef and x[2] in ldef:
+                    one_ = ("k", 1)
+                    if nzc.canon(lb.ev(ldef[x[2]], {}, Ctx(ci.module, None, None))) == one_ and nzc.canon(gymref.builder(False).ev(gdef[x[2]], {}, Ctx(gdc.module, None, None))) == one_:
+                        l_ = replace_nodes(l_, {x: ("const", 1)})
+                        s.notes.append(f"C17.11 {cls}.{k}: `{x[2]}` is accepted and stored by the reference but never applied; compared at its default 1")
+            s.eq("C17.11", f"{cls}.{k}", nzb, field_neutral(l_), field_neutral(g), f"reward component `{k}` == the reference's (same weights, clipping order, time step and operands)", loc,
+                 key=f"term-{k}", necessary_for="the same reward and reward components as Gymnasium v5")
+        # velocity definition
+        if "x_velocity" in gparams:
+            _, _, gstep = gymref.method(gcls, "step")
+            pos_stmt = [st for st in gstep.body if isinstance(st, ast.Assign) and isinstance(st.targets[0], ast.Name) and st.targets[0].id.endswith("position_before")]
+            if len(pos_stmt) != 1:
+                raise AnalysisError(f"reference {gcls}.step: `*_position_before =` vanished")
+            gbs = gym_builder()
+            A_g = common(gbs.ev(pos_stmt[0].value, {"self": self_}, Ctx(gdc.module, gdc, gstep, gci)), D1)
+            vel_stmt = [st for st in gstep.body if isinstance(st, ast.Assign) and isinstance(st.targets[0], ast.Name) and st.targets[0].id.endswith("velocity") and isinstance(st.value, ast.BinOp)]
+            two_d = pos_stmt[0].targets[0].id.startswith("xy")
+            A0 = replace_nodes(A_g, {D1: D0})
+            want = ("bin", "Div", ("bin", "Sub", A_g, A0), ("attr", self_, "dt"))
+            want = ("item", want, 0) if two_d else want
+            want = common(distribute_item(want), D1)
+            got = common(distribute_item(common(lterms["x_velocity"], D1)), D1)
+            s.eq("C17.11", f"{cls}.x_velocity", nz, field_neutral(got), field_neutral(want), "x_velocity == (position functional after − before) / dt with the reference's position functional", loc,
+                 key="velocity-definition", necessary_for="the same forward reward as Gymnasium v5")
+
+
+def distribute_item(n):
+    """((A − B) / s)[i]  ->  (A[i] − B[i]) / s   (element-wise arithmetic commutes with indexing; s is a scalar)."""
+    def f(x):
+        if x and x[0] == "item" and isinstance(x[1], tuple) and x[1][0] == "bin" and x[1][1] == "Div" and isinstance(x[1][2], tuple) and x[1][2][0] == "bin" and x[1][2][1] in ("Sub", "Add"):
+            num = x[1][2]
+            return ("bin", "Div", ("bin", num[1], ("item", num[2], x[2]), ("item", num[3], x[2])), x[1][3])
+        return x
+
+    return mapnodes(n, f)
+
+
+def field_neutral(n):
+    """Body-position reads are compared by body name here; which field (xpos / xipos) is decided by C17.12 with the asset."""
+    return mapnodes(n, lambda x: ("bodypos", "*", x[2], x[3] if len(x) > 3 else None) if x and x[0] == "bodypos" else x)
+
+
+def check_observation_composition(s):
+    """C17.10: concatenated observation parts per flag combination."""
+    P = s.prog
+    self_ = ("param", "self")
+    D1 = ("param", "$data")
+    ms = P.cls("MujocoEnvState").qualname
+    st1 = ("record", ms, (("sim_state", D1), ("t", ("param", "$t1"))))
+    for cls, gcls in MUJOCO.items():
+        gci, gdc, gfn = gymref.method(gcls, "_get_obs")
+        gb = gym_builder()
+        gpaths = [p for p in gb.paths(gfn, Ctx(gdc.module, gdc, gfn, gci), max_paths=256) if p.raised is None]
+        ci = P.cls(cls)
+        lb = lerax_env_builder(s)
+        nz = Normalizer(lb)
+        r = P.resolve_method(ci, "observation")
+        loc = P.loc(r[0].module, r[1])
+        lps = live(lb.paths(r[1], Ctx(r[0].module, r[0], r[1], ci), {"state": st1}, max_paths=256))
+
+        def parts(ret):
+            x = ret
+            # trailing .ravel()/.flatten() of the concatenation is the identity on a 1-D result
+            while isinstance(x, tuple) and x[0] == "call" and isinstance(x[1], tuple) and x[1][0] == "attr" and x[1][2] in ("ravel", "flatten") and not x[2]:
+                x = x[1][1]
+            if isinstance(x, tuple) and x[0] == "call" and x[1] in (("global", "numpy.concatenate"), ("global", "jax.numpy.concatenate")) and x[2] and x[2][0][0] in ("list", "tuple"):
+                return [p_ for p_ in (common(e, D1) for e in x[2][0][1]) if p_ != EMPTY]
+            return None
+
+        n_cmp = 0
+        for lp in lps:
+            lflags = {flag_name(t): v for t, v in lp.conds if flag_name(t)}
+            cand = [gp for gp in gpaths if all(lflags.get(flag_name(t), None) == v for t, v in gp.conds if flag_name(t))
+                    and {flag_name(t) for t, v in gp.conds if flag_name(t)} == set(lflags)]
+            tag = "[" + ",".join(f"{k}={v}" for k, v in sorted(lflags.items())) + "]"
+            if len(cand) != 1:
+                s.ob("C17.10", f"{cls}.observation{tag}", False, "the reference's _get_obs branches on the same set of flags", loc, key="obs-flags",
+                     detail=f"lerax flags {sorted(lflags)}; reference paths {[sorted(filter(None, (flag_name(t) for t, v in gp.conds))) for gp in gpaths][:3]}")
+                continue
+            lp_parts, gp_parts = parts(lp.ret), parts(cand[0].ret)
+            if lp_parts is None or gp_parts is None:
+                raise AnalysisError(f"{cls}: observation is not a concatenation on one side")
+            n_cmp += 1
+            ok = len(lp_parts) == len(gp_parts)
+            s.ob("C17.10", f"{cls}.observation{tag}", ok, "the observation has the reference's number of parts", loc, key="obs-part-count", detail=f"{len(lp_parts)} vs {len(gp_parts)}")
+            if not ok:
+                continue
+            for i, (a, b_) in enumerate(zip(lp_parts, gp_parts)):
+                s.eq("C17.10", f"{cls}.observation{tag}[{i}]", nz, field_neutral(a), field_neutral(b_), f"observation part {i} == the reference's (field, slice, clip bounds)", loc, key=f"obs-part-{i}",
+                     necessary_for="the same observation as Gymnasium v5 from the same physical state")
+        if n_cmp == 0:
+            raise AnalysisError(f"{cls}.observation: nothing compared")
+
+
+def asset_offsets(P, cls):
+    """Per body of the environment's MJCF asset: True if xipos (centre of mass) coincides with xpos (frame origin) by construction."""
+    import os
+    import xml.etree.ElementTree as ET
+    lmod, ldef = lerax_defaults(P, cls)
+    xml = ldef.get("xml_file")
+    if not isinstance(xml, ast.Constant):
+        return None
+    path = os.path.join(os.path.dirname(lmod.path), "assets", xml.value)
+    if not os.path.exists(path):
+        return None
+    root = ET.parse(path).getroot()
+    out = {}
+
+    def zero(v):
+        return v is None or all(abs(float(t)) < 1e-12 for t in v.split())
+
+    for body in root.iter("body"):
+        name = body.get("name")
+        if not name:
+            continue
+        inert = body.find("inertial")
+        geoms = body.findall("geom")
+        if inert is not None:
+            out[name] = zero(inert.get("pos"))
+            continue
+        ok = True
+        for g in geoms:
+            if g.get("fromto") is not None:
+                ft = [float(t) for t in g.get("fromto").split()]
+                mid = [(ft[i] + ft[i + 3]) / 2 for i in range(3)]
+                ok = ok and all(abs(m) < 1e-12 for m in mid)
+            else:
+                ok = ok and zero(g.get("pos"))
+        out[name] = ok and bool(geoms)
+    return out
+
+
+def check_body_fields(s):
+    """C17.12: where the reference reads get_body_com (xpos), a lerax read of xipos is accepted only if the asset shows they coincide."""
+    P = s.prog
+    D1 = ("param", "$data")
+    D0 = ("param", "$data0")
+    ms = P.cls("MujocoEnvState").qualname
+    st0 = ("record", ms, (("sim_state", D0), ("t", ("param", "$t0"))))
+    st1 = ("record", ms, (("sim_state", D1), ("t", ("param", "$t1"))))
+    for cls, gcls in MUJOCO.items():
+        ci = P.cls(cls)
+        gbodies = set()
+        for gm in ("_get_obs", "_get_rew"):
+            try:
+                gci, gdc, gfn = gymref.method(gcls, gm)
+            except AnalysisError:
+                continue
+            for n in ast.walk(gfn):
+                if isinstance(n, ast.Call) and isinstance(n.func, ast.Attribute) and n.func.attr == "get_body_com" and n.args and isinstance(n.args[0], ast.Constant):
+                    gbodies.add(n.args[0].value)
+        if not gbodies:
+            continue
+        offs = asset_offsets(P, cls)
+        lb = lerax_env_builder(s)
+        reads_ = {}
+        for meth, binding in (("observation", {"state": st1}), ("reward", {"state": st0, "next_state": st1}), ("transition_info", {"state": st0, "next_state": st1})):
+            r = P.resolve_method(ci, meth)
+            for p in live(lb.paths(r[1], Ctx(r[0].module, r[0], r[1], ci), binding, max_paths=64)):
+                for x in walk(common(p.ret, D1)):
+                    if isinstance(x, tuple) and x and x[0] == "bodypos" and len(x) >= 3:
+                        reads_.setdefault(x[2], set()).add(x[1])
+        loc = s.loc(cls, "observation")
+        for body in sorted(gbodies):
+            fields_ = reads_.get(body, set())
+            if not fields_:
+                s.ob("C17.12", f"{cls}.{body}", False, "the body position the reference reads is read by lerax too", loc, key=f"body-missing-{body}", detail=f"lerax bodies {sorted(reads_)}")
+                continue
+            if fields_ == {"xpos"}:
+                s.ob("C17.12", f"{cls}.{body}", True, "body position read from xpos (frame origin), as get_body_com does", loc)
+                continue
+            if offs is None or body not in offs:
+                s.undecide("C17.12", f"{cls}.{body}", "asset not found or body not in asset: xipos vs xpos equality unknown")
+                continue
+            s.ob("C17.12", f"{cls}.{body}", offs[body],
+                 "a centre-of-mass read (xipos) stands in for the reference's frame-origin read (get_body_com = xpos) only where the asset makes them coincide", loc,
+                 key=f"xipos-vs-xpos-{body}", detail=f"lerax reads {sorted(fields_)}; asset: body `{body}` has its geoms/inertial at the frame origin: {offs[body]}",
+                 necessary_for="the same observation and reward components as Gymnasium v5 (which uses get_body_com)")
+
+
+def noise_common(n):
+    """Sampler calls -> distribution descriptors (key / size arguments dropped)."""
+    def f(x):
+        if x and x[0] == "call":
+            fn = x[1]
+            kw = dict((k, v) for k, v in x[3] if k)
+            if fn == ("global", "jax.random.uniform"):
+                return ("U", kw.get("minval", ("const", 0.0)), kw.get("maxval", ("const", 1.0)))
+            if fn == ("global", "jax.random.normal"):
+                return ("N",)
+            if isinstance(fn, tuple) and fn[0] == "attr" and fn[1] == ("attr", ("param", "self"), "np_random"):
+                if fn[2] == "uniform":
+                    lo = kw.get("low", x[2][0] if len(x[2]) > 0 else ("const", 0.0))
+                    hi = kw.get("high", x[2][1] if len(x[2]) > 1 else ("const", 1.0))
+                    return ("U", lo, hi)
+                if fn[2] in ("standard_normal", "normal"):
+                    return ("N",)
+        return x
+
+    return mapnodes(n, f)
+
+
+def check_reset_noise(s):
+    """C17.8: law of qpos / qvel at reset (environments without a rejection loop in the reference)."""
+    P = s.prog
+    self_ = ("param", "self")
+    for cls, gcls in MUJOCO.items():
+        gci, gdc, gfn = gymref.method(gcls, "reset_model")
+        if any(isinstance(n, ast.While) for n in ast.walk(gfn)):
+            s.undecide("C17.8", cls, "the reference samples the goal/object position in a rejection loop: reset law compared by reading only")
+            continue
+        gb = gymref.builder(inline_all=False)
+        gps = [p for p in gb.paths(gfn, Ctx(gdc.module, gdc, gfn, gci), max_paths=16) if p.raised is None]
+        sets = []
+        for p in gps:
+            for kind, node, ln in p.effects:
+                for x in walk(node):
+                    if isinstance(x, tuple) and x and x[0] == "call" and x[1] == ("attr", self_, "set_state") and len(x[2]) == 2:
+                        sets.append(x)
+        sets = list(dict.fromkeys(sets))
+        if len(sets) != 1:
+            raise AnalysisError(f"reference {gcls}.reset_model: expected one set_state(qpos, qvel) call, found {len(sets)}")
+        gq, gv = (noise_common(gymref.to_common(a)) for a in sets[0][2])
+        lb = s.builder(inline=set())
+        nz = Normalizer(lb)
+        pl = one(s.paths(lb, cls, "initial"), f"{cls}.initial")
+        reps = [x for x in walk(pl.ret) if isinstance(x, tuple) and x and x[0] == "call" and isinstance(x[1], tuple) and x[1][0] == "attr" and x[1][2] == "replace" and {"qpos", "qvel"} <= set(kwargs_of(x))]
+        if len(reps) != 1:
+            raise AnalysisError(f"{cls}.initial: expected one data.replace(qpos=, qvel=)")
+        kw = kwargs_of(reps[0])
+        loc = s.loc(cls, "initial")
+        for nm, g, l_ in (("qpos", gq, kw["qpos"]), ("qvel", gv, kw["qvel"])):
+            s.eq("C17.8", f"{cls}.initial[{nm}]", nz, noise_common(l_), g, f"reset law of {nm} == the reference's (distribution kind, bounds / scale)", loc, key=f"reset-noise-{nm}",
+                 necessary_for="reset-distribution states are those of Gymnasium v5")
+
+
+def check_ctrl_alias(s):
+    """Premise of the `data.ctrl == action` alias: the shared transition writes ctrl=action before stepping."""
+    b = s.builder(inline=set())
+    p = one(s.paths(b, "AbstractMujocoEnv", "transition"), "AbstractMujocoEnv.transition")
+    scans = [x for x in walk(p.ret) if isinstance(x, tuple) and x and x[0] == "scan"]
+    ok = len(scans) == 1 and scans[0][2] == ("call", ("attr", ("attr", ("param", "state"), "sim_state"), "replace"), (), (("ctrl", ("param", "action")),))
+    s.ob("C17.11", "AbstractMujocoEnv.transition", ok, "the transition writes ctrl=action into the data it steps (premise of comparing data.ctrl with action)", s.loc("AbstractMujocoEnv", "transition"),
+         key="ctrl-is-action", detail=show(scans[0][2], maxlen=160) if scans else "no scan")
+    if ok and isinstance(scans[0][1], Closure):
+        out = b.apply(scans[0][1], (("param", "$d"), NONE), ())
+        oks = isinstance(out, tuple) and out[0] == "tuple" and out[1][0] == ("call", ("global", "mujoco.mjx.step"), (("attr", ("param", "self"), "model"), ("param", "$d")), ())
+        s.ob("C17.11", "AbstractMujocoEnv.transition", oks and scans[0][4] == ("attr", ("param", "self"), "frame_skip"), "the physics is stepped frame_skip times with mjx.step(self.model, ·)",
+             s.loc("AbstractMujocoEnv", "transition"), key="frame-skip", detail=show(out, maxlen=160))
+
+
+def check_stage_b(s):
+    check_ctrl_alias(s)
+    check_reset_noise(s)
+    check_observation_composition(s)
+    check_reward_terms(s)
+    check_body_fields(s)
